@@ -6,7 +6,9 @@
      write failed and the failure was hidden although errors are not discarded
    3 the delta CRL of a downloaded bundle is not "present exactly when the base advertises a location,
      taken from the first location that answers"
-   4 a cache read failure was hidden although errors are not discarded / a cache miss became an error *)
+   4 a cache read failure was hidden although errors are not discarded / a cache miss became an error
+   6 a bundle was returned without any download although it is not the bundle the cache holds for that URL
+     (the cache holds what the caller put there and what completed downloads wrote back, nothing else) *)
 From NCG Require Export Model.Fetcher.
 
 Definition fout := option (fres * list fevent).
@@ -38,6 +40,8 @@ Definition fetch_spec (cfg : fcfg) (w : fworld) (u : Z) (r : fres) (ev : list fe
   | FOk b _ =>
       if negb downloaded &&
          negb (effective (fw_now w) (fb_base b) && match fb_delta b with None => true | Some d => effective (fw_now w) d end) then 1
+      else if negb downloaded &&
+              negb (match lookup (fw_cache w) u with Some b' => fbundle_eqb b b' | None => false end) then 6
       else if downloaded && fc_cache cfg && (negb (existsb is_set ev) || (fw_set_fault w && negb (fc_discard cfg))) then 2
       else if downloaded &&
               negb (match lookup (fw_server w) u with
